@@ -99,9 +99,12 @@ class FilReader(Filterbank):
     ) -> FilterbankBlock:
         fch1 = fch1 if fch1 is not None else self.header.fch1
         nchans = nchans if nchans is not None else self.header.nchans
-        if fch1 > self.header.fch1 or nchans > self.header.nchans:
+        # Nearest channel to the requested frequency (either band direction)
+        chan_start = round((fch1 - self.header.fch1) / self.header.foff)
+        if chan_start < 0 or nchans < 0 or chan_start + nchans > self.header.nchans:
             msg = f"requested block is out of range: fch1={fch1}, nchans={nchans}"
             raise ValueError(msg)
+        fch1 = self.header.fch1 + chan_start * self.header.foff
         if start < 0 or start + nsamps > self.header.nsamples:
             msg = f"requested block is out of range: start={start}, nsamps={nsamps}"
             raise ValueError(msg)
@@ -111,7 +114,6 @@ class FilReader(Filterbank):
         nsamps_read = data.size // self.header.nchans
         data = data.reshape(nsamps_read, self.header.nchans).transpose()
 
-        chan_start = int((fch1 - self.header.fch1) / self.header.foff)
         data_block = data[chan_start : chan_start + nchans]
         start_mjd = self.header.mjd_after_nsamps(start)
         new_header = self.header.new_header(
@@ -301,9 +303,12 @@ class PFITSReader(Filterbank):
     ) -> FilterbankBlock:
         fch1 = fch1 if fch1 is not None else self.header.fch1
         nchans = nchans if nchans is not None else self.header.nchans
-        if fch1 > self.header.fch1 or nchans > self.header.nchans:
+        # Nearest channel to the requested frequency (either band direction)
+        chan_start = round((fch1 - self.header.fch1) / self.header.foff)
+        if chan_start < 0 or nchans < 0 or chan_start + nchans > self.header.nchans:
             msg = f"requested block is out of range: fch1={fch1}, nchans={nchans}"
             raise ValueError(msg)
+        fch1 = self.header.fch1 + chan_start * self.header.foff
         if start < 0 or start + nsamps > self.header.nsamples:
             msg = f"requested block is out of range: start={start}, nsamps={nsamps}"
             raise ValueError(msg)
@@ -316,7 +321,6 @@ class PFITSReader(Filterbank):
         data = data[startsamp : startsamp + nsamps]
         data = data.reshape(nsamps, self.header.nchans).transpose()
 
-        chan_start = int((fch1 - self.header.fch1) / self.header.foff)
         data_block = data[chan_start : chan_start + nchans]
         start_mjd = self.header.mjd_after_nsamps(start)
         new_header = self.header.new_header(
